@@ -186,7 +186,7 @@ def gen_cases(rng, tier):
             kw = c12.settle_seed(kw)
         cases.append(kw)
 
-    reps = 2 if quick else 8
+    reps = 2 if quick else 10
     for kind in LOSS_KINDS:
         for r in range(reps):
             base = kind.replace("sys_", "")
@@ -221,7 +221,7 @@ def gen_cases(rng, tier):
             c["history"] = h
             add(c)
     for kind in GEN_KINDS:
-        for r in range(1 if quick else 4):
+        for r in range(1 if quick else 6):
             n = rng.choice([4, 6, 8])
             b = rng.choice([1, 2])
             c = dict(kind=kind, n=n, b=b, history=_history(rng, 3, ["eager", "jit"], 8 if quick else 14))
@@ -233,6 +233,10 @@ def shrink_candidates(case):
     h = case["history"]
     if len(h) > 2:
         for i in range(1, len(h)):
+            # generator histories keep their jit calls: whether a jitted draw fails can depend on which other
+            # generator objects the same jitted function has already seen
+            if case["kind"] in GEN_KINDS and h[i][1] == "jit":
+                continue
             yield {**case, "history": h[:i] + h[i + 1:]}
     if case["kind"] in LOSS_KINDS:
         for cand in c12._shrink({k: v for k, v in case.items()}):
@@ -297,11 +301,12 @@ def run_loss(case):
         after = snapshot(args)
         out = {k: v for k, v in out.items() if k != "msg"}
         trace.append({"call": ci, "mode": mode, "before": before, "after": after, "result_key": _outcome_key(out),
-                      "result": out})
+                      "result": out, "rejected": "error" in out})
     return {"trace": trace}
 
 
-def make_generator(case):
+def make_generator(case, variant=0):
+    """variant=1: an independently built generator of the same kind (other key, other user data)"""
     import jax
     import jax.numpy as jnp
     from jinns.data._DataGenerators import (CubicMeshPDENonStatio, CubicMeshPDEStatio, DataGeneratorObservations,
@@ -309,7 +314,8 @@ def make_generator(case):
                                             DataGeneratorParameter)
 
     kind, n, b = case["kind"], case["n"], case["b"]
-    key = jax.random.PRNGKey(case["seed"] % (1 << 30))
+    key = jax.random.PRNGKey((case["seed"] + 17 * variant) % (1 << 30))
+    sh = float(variant)
     if kind == "gen_ode":
         return DataGeneratorODE(key, n, 0.0, 2.0, b)
     if kind == "gen_statio1":
@@ -326,13 +332,13 @@ def make_generator(case):
         return CubicMeshPDENonStatio(key=key, n=n, nb=4 * n, nt=n, omega_batch_size=b, omega_border_batch_size=b,
                                      temporal_batch_size=b, dim=2, min_pts=(0.0, -1.0), max_pts=(1.0, 1.0), tmin=0.0,
                                      tmax=2.0, cartesian_product=True)
-    pin = jnp.arange(float(n))[:, None] * 2.0 + 1.0
-    val = jnp.arange(float(2 * n)).reshape(n, 2) - 3.0
+    pin = jnp.arange(float(n))[:, None] * 2.0 + 1.0 + sh
+    val = jnp.arange(float(2 * n)).reshape(n, 2) - 3.0 + sh
     if kind == "gen_obs":
         return DataGeneratorObservations(key, b, pin, val, {"nu": jnp.arange(float(n)) + 10.0})
     if kind == "gen_param":
         return DataGeneratorParameter(key, n, b, param_ranges={"nu": (0.0, 1.0)},
-                                      user_data={"a": jnp.arange(float(n)) - 1.0})
+                                      user_data={"a": jnp.arange(float(n)) - 1.0 + sh})
     if kind == "gen_multi":
         return DataGeneratorObservationsMultiPINNs(
             b, {"u0": pin, "u1": None, "u2": pin + 1.0}, {"u0": val, "u1": None, "u2": val + 1.0},
@@ -345,9 +351,10 @@ def run_gen(case):
     from harness import core
 
     g0 = make_generator(case)
-    # three generator objects: the initial one and two successors
+    # three generator objects: the initial one, its successor, and an independently built generator of the
+    # same kind -- all drawn from through the same jitted function
     g1, _ = g0.get_batch()
-    g2, _ = g1.get_batch()
+    g2 = make_generator(case, variant=1)
     objs = [g0, g1, g2]
     jitted = jax.jit(lambda g: g.get_batch())
     trace = []
@@ -361,7 +368,8 @@ def run_gen(case):
         except Exception as e:  # a generator that cannot be drawn from in this mode
             key = "error:" + core.err_kind(e)
         after = snapshot([g])
-        trace.append({"call": ci, "mode": mode, "before": before, "after": after, "result_key": key, "result": None})
+        trace.append({"call": ci, "mode": mode, "before": before, "after": after, "result_key": key, "result": None,
+                      "rejected": key.startswith("error:")})
     return {"trace": trace, "successor_differs": distinct}
 
 
